@@ -39,6 +39,11 @@ def writer_reader_rule(syn, prop, rule="C05.R6", crate=None):
     show = lambda x: None if x is None else x.replace(M.ARG, "<..>")
     ok = w_line is not None and w_line == m_line and w_sep == m_sep
     r.inst(writer_import_line=show(w_line), merge_import_line=show(m_line), names_separated_by_comma=(w_sep, m_sep), same_shape=ok)
+    if w_line is None or m_line is None:
+        # no import statement could be read off one of the two sides (it is assembled in a way the text reader does not follow)
+        r.fail(prop, "anchor-missing import statement of %s" % ("generate_imports" if w_line is None else "merge"), "the text of the import statement could not be read", (gi if w_line is None else mg).file(), (gi if w_line is None else mg).line())
+        r.floor = 6
+        return r
     if not ok:
         r.fail(prop, "import-line-shape generate_imports/merge", "generate_imports writes %r but merge() re-emits %r: after a merge the file's imports have a different shape than freshly written ones" % (show(w_line), show(m_line)),
                mg.file(), mg.line())
